@@ -2,7 +2,7 @@
    The classification theorems are about the table GENERATED from /repo/characterize.go. *)
 From Coq Require Import List Arith Bool.
 Import ListNotations.
-From NJ Require Import Base Registry Classify Select Reorder Machine Spec Bind ClassifyProofs OnceLemmas SpecLemmas WfProofs EndToEnd.
+From NJ Require Import Base Registry Classify Select Reorder Machine Spec Bind ClassifyProofs OnceLemmas SpecLemmas WfProofs EndToEnd TableSpec.
 
 (* Only cacheable functions whose inputs are all static are hoisted; NotCacheable wins. *)
 Theorem C06_static_requires : forall te d cc s,
@@ -75,3 +75,26 @@ Theorem C06_static_part_runs_once_per_bound_chain : forall (c : bcase) (pl : pla
         flat_map (fun _ => r_pid (sp_invoke sp) :: expected ncalls (sp_run sp)) (seq 0 k).
 Proof. exact plain_chain_static_once. Qed.
 Print Assumptions C06_static_part_runs_once_per_bound_chain.
+
+(* The classification at full strength: for every provider, annotation set and context, the class,
+   the group (static / per invocation / final / literal) and the memoized flag that the table
+   generated from /repo/characterize.go yields are those of the decision list [spec] (TableSpec.v),
+   written in the words of the documentation: a value is a literal; the last function is the final
+   function and cannot be cached; otherwise a function is hoisted into the static set exactly when
+   it is Cacheable, its inputs are static, it is not NotCacheable and not Reorder'd (plus: hashable
+   parameters for Singleton and Memoize, and something to produce); Singleton that cannot be hoisted
+   and MustCache that would run per invocation match nothing (Bind fails); a TerminalError result
+   makes the injector fallible.  Checked by exhausting the 2^18 feature vectors. *)
+Theorem C06_classification_is_the_specified_one : forall te d cc,
+  match d_shape d with
+  | ShNilFn _ _ => characterizeFunc te d cc = None
+  | _ => option_map (fun s => (s_class s, s_group s, s_memoized s)) (characterizeFunc te d cc) = spec (features te d cc)
+  end.
+Proof. exact classify_is_spec. Qed.
+Print Assumptions C06_classification_is_the_specified_one.
+
+(* ... and each class is given the flows it is specified to have. *)
+Theorem C06_flows_are_the_specified_ones : forall te d cc s,
+  characterizeFunc te d cc = Some s -> exists e, flows_spec e = true /\ s = apply_entry te d e.
+Proof. intros te d cc s. exact (classified_flows te handlerRegistry d cc s handler_flows_spec). Qed.
+Print Assumptions C06_flows_are_the_specified_ones.
